@@ -18,6 +18,7 @@ C17Configs == { [phase |-> 0, fabric |-> 0, regime |-> 4, n |-> 5],
 \* whole-file member meta).
 PfFamily == {"1", "10", "q", "ol_1", "en_1", "1_ol", "meta", "fractions_1", "a b", ""}
 PfFamilyQ == {"1", "10", "ol_1", "en_1", "meta", ""}
+PfFamilyT == {"1", "10", "ol_1", ""}      \* thorough enumeration with ANY mineral as the k-th saver
 C17Pars == { [M |-> 125, chi |-> 3, asm |-> <<0, 1>>, phiOl |-> 7, x |-> <<5, 0>>] }
 \* construction and a few updates, then persistence only
 Grow(m) == \/ \E c \in Configs, s \in Seeds, tx \in Textures : Create(m, c, s, tx, InitO(s, c.n, tx), InitF(c.n, tx))
